@@ -182,6 +182,20 @@ class SiteAnalysis:
                 consumed = True
                 self.scan_closures_of_call(c)
                 self.sinks.add('free:' + cname)
+                if cname in ('any', 'all'):
+                    # a short-circuiting consumer visits a hash-order dependent prefix of the elements: a closure that
+                    # also *changes* the element it is shown (otherwise a write confined to the element is order-free)
+                    # changes an order-dependent subset
+                    MUT_ = ('retain', 'retain_mut', 'remove', 'swap_remove', 'push', 'insert', 'clear', 'drain', 'truncate',
+                            'pop', 'extend', 'append', 'dedup', 'replace', 'set', 'take', 'push_str')
+                    for cl in c['f'].get('closures') or []:
+                        cf = self.prog.fns.get(cl)
+                        if cf is None:
+                            continue
+                        for c2 in [cf] + self.prog.closures_of(cf):
+                            for _, t2 in c2.calls():
+                                if callee_short(t2).rsplit('::', 1)[-1] in MUT_ or is_dyn_call(t2):
+                                    self.sinks.add('partial-traversal:%s-under-%s' % (callee_short(t2), cname))
                 continue
             if cname in ORDER_SENS_CONSUMERS and 0 in args_t:
                 consumed = True
